@@ -1,7 +1,10 @@
 (* Proofs about the framing model, part 5: for ARBITRARY input bytes and any decoder state,
    one Decode requests at most MaxMessageSize bytes of buffers, accepts at most 513 segments,
    and never panics. *)
-From CV Require Import Frame.Frame Frame.FrameProofs Frame.FrameSafe Frame.FrameStream.
+From CV Require Import Frame.Frame.
+From CV Require Import Frame.FrameProofs.
+From CV Require Import Frame.FrameSafe.
+From CV Require Import Frame.FrameStream.
 From Coq Require Import ZifyBool ZifyNat.
 Ltac Zify.zify_post_hook ::= Z.div_mod_to_equations.
 Open Scope Z_scope.
